@@ -174,6 +174,7 @@ def check_single(d, ck):
 
 
 def check_pair(d1, d2, ck):
+    import warnings
     numpoly = ck.numpoly
     c = cls_of(d1, d2)
     x = data(d1)
@@ -205,6 +206,38 @@ def check_pair(d1, d2, ck):
         ck.run("astype", c, lambda: src.astype(d2), {(0,): cast, (1,): cast[::-1]}, d2, lab)
         ck.run("polynomial(ndpoly,dtype)", c, lambda: numpoly.polynomial(src, dtype=d2), {(0,): cast, (1,): cast[::-1]}, d2, lab)
         ck.run("aspolynomial(ndpoly,dtype)", c, lambda: numpoly.aspolynomial(src, dtype=d2), {(0,): cast, (1,): cast[::-1]}, d2, lab)
+    # a coefficient list mixing dtypes: the polynomial takes the dtype of the first coefficient (or the
+    # requested one) and every other coefficient must be cast like numpy casts it
+    y = data(d2, (3,), 1)
+    with warnings.catch_warnings(), numpy.errstate(all="ignore"):
+        warnings.simplefilter("ignore")
+        ycast = y.astype(d1)
+    ck.run("polynomial_from_attributes(mixed-list)", c,
+           lambda: numpoly.polynomial_from_attributes([[0], [1]], [x, y]), {(0,): x, (1,): ycast}, d1, lab)
+    ck.run("polynomial(dict,mixed)", c,
+           lambda: numpoly.polynomial({(0,): x, (2,): y}), {(0,): x, (2,): ycast}, d1, lab)
+    # joins / selection between dtypes follow numpy's promotion
+    px, py = numpoly.polynomial(x), numpoly.polynomial(y)
+    if px.dtype == numpy.dtype(d1) and py.dtype == numpy.dtype(d2):
+        with warnings.catch_warnings(), numpy.errstate(all="ignore"):
+            warnings.simplefilter("ignore")
+            cat = numpy.concatenate([x, y])
+            ck.run("concatenate", c, lambda: numpoly.concatenate([px, py]), {(0,): cat}, cat.dtype, lab)
+            ck.run("stack", c, lambda: numpoly.stack([px, py]), {(0,): numpy.stack([x, y])}, cat.dtype, lab)
+            ck.run("hstack", c, lambda: numpoly.hstack([px, py]), {(0,): numpy.hstack([x, y])}, cat.dtype, lab)
+            cond = numpy.array([True, False, True])
+            wh = numpy.where(cond, x, y)
+            ck.run("where", c, lambda: numpoly.where(cond, px, py), {(0,): wh}, wh.dtype, lab)
+            if d1 != "bool" and d2 != "bool" and not d1.startswith("complex") and not d2.startswith("complex"):
+                mx = numpy.maximum(x, y)
+                ck.run("maximum", c, lambda: numpoly.maximum(px, py), {(0,): mx}, mx.dtype, lab)
+            if numpy.can_cast(numpy.dtype(d2), numpy.dtype(d1), "same_kind") and d1 != "bool":
+                ed = numpy.ediff1d(x, to_begin=y[:1], to_end=y[1:2])
+                ck.run("ediff1d(boundaries)", c, lambda: numpoly.ediff1d(px, to_begin=py[:1], to_end=py[1:2]),
+                       {(0,): ed}, ed.dtype, lab)
+            if d1 != "bool" and d2 != "bool":
+                df = numpy.diff(x, prepend=y[:1])
+                ck.run("diff(prepend)", c, lambda: numpoly.diff(px, prepend=py[:1]), {(0,): df}, df.dtype, lab)
     # arithmetic between dtypes: p1 = a1*q0 + b1, p2 = a2*q0 + b2
     for shp1, shp2, tag in (((3,), (3,), "same-shape"), ((3,), (2, 1), "broadcast")):
         a1, b1 = data(d1, shp1, 1), data(d1, shp1, 2)
